@@ -226,7 +226,13 @@ def main():
                 '--ca-signing-key-file', PKI + '/ca-signing-key.pem', '--ca-file', PKI + '/oca-cert.pem']
         if pt['insecure']:
             args.append('--insecure-tls-interception')
-        flags = FlagParser.initialize(args, plugins=[OptOut] if pt['optout'] else [])
+
+        class Bystander(HttpProxyBasePlugin):
+            """Loaded next to the opting-out plugin; has no opinion (inherits do_intercept -> True)."""
+        plist = {False: [], True: [OptOut], 'only': [OptOut], 'first': [OptOut, Bystander],
+                 'last': [Bystander, OptOut], 'bystander_only': [Bystander]}[pt['optout']]
+        flags = FlagParser.initialize(args, plugins=plist)
+        res['plugin_order'] = [c.__name__ for c in flags.plugins.get(b'HttpProxyBasePlugin', [])]
         logging.disable(logging.CRITICAL)
         host = pt['host']
         bind = '::1' if host == '[::1]' else '127.0.0.1'
@@ -236,7 +242,8 @@ def main():
         th = threading.Thread(target=ex.run, daemon=True)
         th.start()
         name_for_cert = host.strip('[]')
-        verify_ca = PKI + ('/oca-cert.pem' if pt['optout'] else '/ca-cert.pem')
+        opted = pt['optout'] not in (False, 'bystander_only')
+        verify_ca = PKI + ('/oca-cert.pem' if opted else '/ca-cert.pem')
         conns = []
         n_conn = 2 if pt['cache'] == 'warm' else 1
         for i in range(n_conn):
